@@ -252,7 +252,8 @@ def expression_sets(draw, constructs=("list", "dict", "records", "yml_str"), max
             tree = draw(gp.trees(allowed, max_leaves=4, need_ref=False))
             # (bounds on a derived parameter are accepted and have no meaning: its value is that of its expression)
             lo, hi = draw(st.sampled_from([(-INF, INF), (-INF, INF), (-INF, INF), (0.0, INF), (-INF, 0.5), (-0.5, 0.5), (1.0, 2.0)]))
-            params.append({"label": lab, "value": draw(st.sampled_from([None, None, 0.0, 1.0])), "min": lo, "max": hi, "nn": False,
+            # (likewise the non-negative flag - explicit or inherited from a group default - does not transform a derived value)
+            params.append({"label": lab, "value": draw(st.sampled_from([None, None, 0.0, 1.0])), "min": lo, "max": hi, "nn": draw(st.integers(0, 3)) == 0,
                            "vary": True, "expr": tree})
     pset = {"construct": base, "params": params}
     free = [p["label"] for p in params if gp.is_free(p)]
@@ -325,8 +326,9 @@ def prop_random(case):
     with expect_ok("random.export_call"), np.errstate(all="ignore"):
         labels, values, _, _ = P.get_label_value_and_bounds_arrays()
     want = ex.evaluate_all(gp.exprs_of(pset), plain_values(P, pset))
+    nn_labels = {p["label"] for p in pset["params"] if p.get("nn")}
     for lab, v in zip(labels, values):
-        if lab in want:
+        if lab in want and lab not in nn_labels:  # (the export is in optimiser space: logarithms for non-negative parameters, C11)
             check(ex.close(v, want[lab], RTOL), "random.export", lambda: f"exported {lab} = {v!r}, expression gives {want[lab]!r}")
     funcs = {node for t in gp.exprs_of(pset).values() for node in _node_kinds(t)}
     tags += [f"fn:{f}" for f in sorted(funcs & set(ex.FUNCS))]
